@@ -20,7 +20,7 @@ import fam_emitast
 
 ID = "C16"
 COQ_PROP = "C16"
-FAMILIES = [(fam_emitast, 1500, 12000)]
+FAMILIES = [(fam_emitast, 4000, 40000)]
 TECHNIQUE = ("Coq proof (list lemmas over the three splice sites, RewriteName = scoped substitution by induction over "
              "statement/expression trees; unbounded in body length and depth) + differential correspondence of "
              "EmitAst.v against emit.py/ast_utils.py/emitter_utils.py")
@@ -188,6 +188,9 @@ def gen_cases(rng, n):
         ir = {"name": "f", "type": "static", "doc": ir["doc"],
               "params": OrderedDict((k, dict(v)) for k, v in ir["params"].items()),
               "returns": None if ir["returns"] is None else OrderedDict((k, dict(v)) for k, v in ir["returns"].items())}
+        for r_ in (ir["returns"] or {}).values():
+            if not r_.get("doc") and rng.random() < 0.85:
+                r_["doc"] = "the result."       # a return entry without prose makes to_docstring raise (C03's finding)
         pn = list(ir["params"])
         src = fam_emitast.gen_body_src(rng, pn, allow_opaque_params=rng.random() < 0.25, kind=kind if kind != "class" else "function")
         if kind == "class" and rng.random() < 0.35 and pn:
@@ -294,7 +297,7 @@ def check_case(case):
 
 
 def oracle(rng, tier):
-    n = 500 if tier == "quick" else 6000
+    n = 1500 if tier == "quick" else 12000
     cases = gen_cases(rng, n)
     evals, reqs, owners = [], [], []
     for c in cases:
@@ -309,6 +312,7 @@ def oracle(rng, tier):
         e = loads(o)
         cls_of[idx] = None if e == "none" else (unhx(e[1]) if isinstance(e, list) else str(e))
     failures, hist, seen = [], collections.Counter(), set()
+    kept = collections.Counter()
     for idx, (c, (ok, what, req, skip)) in enumerate(evals):
         if skip:
             hist["skipped:" + c["kind"] + ":" + skip] += 1
@@ -322,6 +326,9 @@ def oracle(rng, tier):
             hist["skipped-unmodelled:" + c["kind"]] += 1
             continue
         hist["fails:%s:%s" % (c["kind"], cls or "in-guard")] += 1
+        kept[(c["kind"], cls)] += 1
+        if cls is not None and kept[(c["kind"], cls)] > 25:
+            continue
         failures.append({"case": {k: c[k] for k in ("kind", "ir", "body_src", "opts")}, "what": what, "class": cls})
     return {
         "evaluations": len(evals),
